@@ -8,7 +8,13 @@ assignments landing between a completion and the wake-up of its task are all rea
 
 Part P (parameter driven by asynchronous references)
     kinds   : every sequence of <= N assignments from {c: coroutine function, g: async generator
-              function with two yields, v: plain value} to ``p = Parameter(allow_refs=True)``
+              function with two yields, v: plain value, C: the SAME coroutine function object as
+              the most recent earlier c/C assignment, G: the SAME async generator function object
+              as the most recent earlier g/G assignment} to ``p = Parameter(allow_refs=True)``.
+              Every call of a function -- shared or not -- awaits the futures of the assignment
+              that made the call (the assignment index travels in a ContextVar that the task
+              created by the assignment copies), so results always carry the index of the
+              assignment they belong to.
     words   : every interleaving of the assignments (in order) with the completions R<i>.<k> of
               their futures (a future can complete any time after its assignment; the two
               futures of a generator in order, thorough also out of order)
@@ -21,6 +27,9 @@ Part P (parameter driven by asynchronous references)
       no-stale-apply         no watcher event ever carries the result of assignment i while a
                              newer assignment j > i (async) has been made
       plain-not-overwritten  same with j a plain value: it is never overwritten by a pending result
+    A failing schedule of a sequence with a shared function (C/G) whose twin (the same schedule
+    with fresh function objects) fails in the same way is counted in the twin's class (the
+    sharing is irrelevant); otherwise it forms a class of its own, marked ``samefn=1``.
 
 Part R (reactive expression piping through coroutines)
     shapes  : r.rx.pipe(coro), r.rx.pipe(asyncgen), rx(bind(coro, r)), rx(bind(asyncgen, r))
@@ -33,6 +42,7 @@ Part R (reactive expression piping through coroutines)
               a result for a newer input was delivered to the watch callback, no result for an
               older input is delivered).
 """
+import contextvars
 import itertools
 import os
 import warnings
@@ -64,8 +74,29 @@ def _quiet():
 # Part P: words
 # =====================================================================================
 
+def lower(kinds):
+    return tuple(k.lower() for k in kinds)
+
+
+def shared_sequences(n):
+    """kind sequences of length n that assign the same function object at least twice"""
+    out = []
+    for kinds in itertools.product("cgvCG", repeat=n):
+        if not any(k in "CG" for k in kinds):
+            continue
+        seen, ok = set(), True
+        for k in kinds:
+            if k in "CG" and k.lower() not in seen:
+                ok = False
+            seen.add(k.lower())
+        if ok:
+            out.append(kinds)
+    return out
+
+
 def words(kinds, free_gen_order=False):
     """All interleavings of A0..A(n-1) (in order) with the completions of their futures."""
+    kinds = lower(kinds)
     n = len(kinds)
     res = []
 
@@ -138,6 +169,7 @@ def parse_sched(s):
 # =====================================================================================
 
 _TCLS = None
+_CUR = contextvars.ContextVar("c10_assignment", default=None)
 
 
 def _tcls():
@@ -188,31 +220,45 @@ def run_param_case(kinds, events):
                 if not loop._ready:
                     break
 
-        def mk_c(i):
+        def call_index(users):
+            # index of the assignment whose task runs this body (ContextVar copied by the task)
+            i = _CUR.get()
+            if i not in users:
+                errs.append("harness: body of a function assigned by %r runs for assignment %r" % (users, i))
+            return i
+
+        def mk_c(users):
             async def co():
+                i = call_index(users)
                 return await futs[(i, 0)]
             return co
 
-        def mk_g(i):
+        def mk_g(users):
             async def gen():
+                i = call_index(users)
                 yield await futs[(i, 0)]
                 yield await futs[(i, 1)]
             return gen
 
+        last_fn = {}        # 'c' / 'g' -> (function object, indexes of the assignments using it)
         for ev in events:
             if ev[0] == "A":
                 i = ev[1]
                 k = kinds[i]
                 state["G"] = i
+                _CUR.set(i)
                 if k == "v":
                     t.p = ("v", i)
-                elif k == "c":
-                    futs[(i, 0)] = loop.create_future()
-                    t.p = mk_c(i)
                 else:
                     futs[(i, 0)] = loop.create_future()
-                    futs[(i, 1)] = loop.create_future()
-                    t.p = mk_g(i)
+                    if k in "gG":
+                        futs[(i, 1)] = loop.create_future()
+                    if k in "cg":
+                        users = [i]
+                        last_fn[k] = ((mk_c if k == "c" else mk_g)(users), users)
+                    else:
+                        last_fn[k.lower()][1].append(i)      # the SAME function object again
+                    t.p = last_fn[k.lower()][0]
             elif ev[0] == "R":
                 f = futs[(ev[1], ev[2])]
                 if not f.done():        # a cancelled task cancels the future it awaits
@@ -230,6 +276,7 @@ def run_param_case(kinds, events):
 
 
 def expected_final(kinds):
+    kinds = lower(kinds)
     L = len(kinds) - 1
     k = kinds[L]
     if k == "v":
@@ -239,6 +286,7 @@ def expected_final(kinds):
 
 def check_param(kinds, events, final, obs):
     """-> list of (clause, classkey, detail)"""
+    kinds = lower(kinds)        # the oracle does not care whether a function object is shared
     fails = []
     # which assignments had their task started (a tick between A_i and A_{i+1})
     started = {}
@@ -298,6 +346,8 @@ def _param_task(args):
         nleft = 0
         samples = []
         idx = -1
+        shared = any(k in "CG" for k in kinds)
+        twin = lower(kinds)
         ws = words(kinds, free)
         if free:
             # only the words that are not already produced with ordered generator futures
@@ -316,14 +366,31 @@ def _param_task(args):
                 nleft += left
                 nchk["C10/param/final-latest-wins"] += 1
                 nasync = sum(1 for k in kinds if k != "v")
+                fails = check_param(kinds, events, final, obs)
+                if any(e.startswith("harness") for e in errs):
+                    fails.append(("C10/harness", ("contextvar",), "; ".join(e for e in errs if e.startswith("harness"))))
+                tfails = {}
+                if fails and shared:
+                    # does the same schedule fail in the same way with fresh function objects?
+                    tfinal, tobs, _te, tleft = run_param_case(twin, events)
+                    nleft += tleft
+                    tfails = {(c, tuple(k)): d for (c, k, d) in check_param(twin, events, tfinal, tobs)}
                 nchk["C10/param/no-stale-apply"] += len(obs) if nasync else 0
                 nchk["C10/param/plain-not-overwritten"] += len(obs) if "v" in kinds else 0
                 if len(samples) < 1:
                     samples.append({"kinds": "".join(kinds), "sched": sched, "final": repr(final),
                                     "watcher": repr(obs)})
-                for (clause, key, detail) in check_param(kinds, events, final, obs):
+                for (clause, key, detail) in fails:
                     ck = (clause,) + tuple(key)
                     size = _size(kinds, sched)
+                    if shared and clause != "C10/harness":
+                        if (clause, tuple(key)) in tfails:
+                            # sharing is irrelevant: counted in the class of the twin, which stays
+                            # the representative
+                            size = _size(twin, sched)
+                            detail = tfails[(clause, tuple(key))]
+                        else:
+                            ck = ck + ("samefn=1",)
                     ent = classes.get(ck)
                     if ent is None:
                         classes[ck] = [size, detail, 1]
@@ -338,12 +405,14 @@ def _param_task(args):
 
 
 PARAM_REPLAY = '''
-import asyncio, warnings, logging
+import asyncio, contextvars, warnings, logging
 warnings.simplefilter('ignore')
 import param
 param.parameterized.get_logger().setLevel(logging.CRITICAL + 10)
+CUR = contextvars.ContextVar('assignment', default=None)   # copied by the task an assignment creates
 
-KINDS = KINDS_LIT      # c coroutine function, g async generator function (2 yields), v plain value
+KINDS = KINDS_LIT      # c coroutine function, g async generator function (2 yields), v plain value,
+                       # C / G: the SAME function object as the most recent earlier c / g assignment
 SCHED = SCHED_LIT      # A<i> assignment i, R<i>.<k> complete future k of assignment i, T run loop until idle
 CLAUSE = CLAUSE_LIT
 
@@ -360,24 +429,30 @@ def run():
         async def tick():
             for _ in range(40):
                 await asyncio.sleep(0)
-        def mk_c(i):
-            async def co(): return await futs[(i, 0)]
+        def mk_c():
+            async def co():
+                i = CUR.get()           # the assignment this call belongs to
+                return await futs[(i, 0)]
             return co
-        def mk_g(i):
+        def mk_g():
             async def gen():
+                i = CUR.get()
                 yield await futs[(i, 0)]
                 yield await futs[(i, 1)]
             return gen
+        fn = {}
         for tok in SCHED.split(','):
             if tok == 'T':
                 await tick()
             elif tok[0] == 'A':
-                i = int(tok[1:]); k = KINDS[i]; state['G'] = i
+                i = int(tok[1:]); k = KINDS[i]; state['G'] = i; CUR.set(i)
                 if k == 'v':
                     t.p = ('v', i)
                 else:
                     futs[(i, 0)] = loop.create_future(); futs[(i, 1)] = loop.create_future()
-                    t.p = mk_c(i) if k == 'c' else mk_g(i)
+                    if k == 'c': fn['c'] = mk_c()
+                    if k == 'g': fn['g'] = mk_g()
+                    t.p = fn[k.lower()]         # C / G: the same function object again
             else:
                 i, k = tok[1:].split('.')
                 f = futs[(int(i), int(k))]
@@ -396,7 +471,7 @@ def run():
 
 final, obs = run()
 L = len(KINDS) - 1
-want = ('v', L) if KINDS[L] == 'v' else ('r', L, 0 if KINDS[L] == 'c' else 1)
+want = ('v', L) if KINDS[L] == 'v' else ('r', L, 0 if KINDS[L] in 'cC' else 1)
 print('assignments :', KINDS, ' schedule:', SCHED)
 print('watcher saw (latest assignment index at that moment, value):', obs)
 print('final value :', final, ' expected:', want)
@@ -712,7 +787,9 @@ def run(tier, seed):
     rx_n = 3 if thorough else 2
     B = Bounded(
         PROP,
-        rule=("P: (assignment kinds in {c,g,v}^n) x (every interleaving of the assignments with the "
+        rule=("P: (assignment kinds in {c,g,v}^n, and in {c,g,v,C,G}^n where C / G assign the SAME "
+              "coroutine / async-generator function object as the most recent earlier c / g "
+              "assignment) x (every interleaving of the assignments with the "
               "completions of their hand-made futures) x (tick placement: which gaps between "
               "events let the loop run until idle); distinct = (kinds, schedule).  "
               "R: shape in {r.rx.pipe(coro), r.rx.pipe(asyncgen), rx(bind(coro,r)), "
@@ -721,9 +798,12 @@ def run(tier, seed):
               "futures; distinct = configuration + order"),
         bound=("P: n<=%d assignments; all 2^(e-1) tick placements for words of e<=%s events, five "
                "tick modes (all/none/burst/after-A/after-R) above; generator futures out of order: "
-               "%s.  R: n<=%d updates, <=%d orders per configuration"
+               "%s; sequences with a shared function object: all of length <=%d%s, all tick "
+               "placements for e<=%s.  R: n<=%d updates, <=%d orders per configuration"
                % (nmax, "9 (n<=3) / 6 (n=4)" if thorough else "7",
                   "n<=3, five tick modes" if thorough else "n<=2, five tick modes",
+                  3, " and those of length 4 with at most one generator assignment" if thorough else "",
+                  "8 (n<=3) / 6 (n=4)" if thorough else "6",
                   rx_n, 2520 if thorough else 90)))
 
     tasks = []
@@ -742,6 +822,19 @@ def run(tier, seed):
     for n in range(1, (3 if thorough else 2) + 1):
         for kinds in itertools.product("cgv", repeat=n):
             if "g" in kinds:
+                tasks.append(("P", (kinds, True, 0, 0, 1)))
+    # the SAME function object assigned two or more times (C / G), followed by anything
+    for n in range(2, nmax + 1):
+        for kinds in shared_sequences(n):
+            ngen = sum(1 for k in kinds if k in "gG")
+            if n == 4 and ngen > 1:
+                continue                    # bound: n = 4 only with at most one generator assignment
+            all_limit = (8 if thorough else 6) if n <= 3 else 6
+            nw = len(words(kinds))
+            nparts = 1 if nw < 100 else min(16, nw // 60 + 1)
+            for part in range(nparts):
+                tasks.append(("P", (kinds, False, all_limit, part, nparts)))
+            if "G" in kinds and n <= (3 if thorough else 2):
                 tasks.append(("P", (kinds, True, 0, 0, 1)))
     for shape in SHAPES:
         for n in range(1, rx_n + 1):
